@@ -26,6 +26,7 @@ import (
 	"github.com/semihalev/sdns/config"
 	"github.com/semihalev/sdns/internal/authority"
 	"github.com/semihalev/sdns/internal/cache"
+	"github.com/semihalev/sdns/internal/dnsutil"
 	"github.com/semihalev/sdns/middleware"
 )
 
@@ -48,17 +49,113 @@ func (q *vC07HostQueryer) Query(ctx context.Context, req *dns.Msg) (*dns.Msg, er
 	return m, nil
 }
 
-var vC07Local = []net.IP{net.IPv4(192, 0, 2, 77), net.ParseIP("2001:db8::77"), net.IPv4(10, 9, 8, 7).To4()}
-
-func vC07RandIP(r *rand.Rand, want16 bool) ([]byte, string) {
-	v4 := [][]byte{
-		{127, 0, 0, 1}, {127, 255, 255, 255}, {126, 255, 255, 255}, {128, 0, 0, 0}, {0, 0, 0, 0},
-		{192, 0, 2, 77}, {10, 9, 8, 7}, {192, 0, 2, 78}, {198, 51, 100, 1}, {198, 51, 100, 2}, {6, 6, 6, 6},
+// vC07HostAddrs enumerates the addresses configured on this host's interfaces, independently of the
+// package's own findLocalIPAddresses (net.InterfaceAddrs instead of net.Interfaces + Addrs).  all = every
+// interface address (what the resolver's filter is built from at init), ext = the non-loopback ones.
+func vC07HostAddrs() (all, ext []net.IP) {
+	aa, err := net.InterfaceAddrs()
+	if err != nil {
+		return nil, nil
 	}
-	kinds4 := []string{"loopback", "loopback-hi", "below-loopback", "above-loopback", "unspecified",
-		"local", "local", "near-local", "plain", "plain", "plain"}
-	v6 := []string{"::1", "::2", "::", "2001:db8::77", "2001:db8::78", "2001:db8::1", "2001:db8::2", "fe80::1"}
-	kinds6 := []string{"loopback6", "near-loopback6", "unspecified6", "local6", "near-local6", "plain6", "plain6", "linklocal6"}
+	seen := map[string]bool{}
+	for _, a := range aa {
+		ipn, ok := a.(*net.IPNet)
+		if !ok || ipn.IP == nil {
+			continue
+		}
+		k := ipn.IP.String()
+		if seen[k] {
+			continue
+		}
+		seen[k] = true
+		all = append(all, ipn.IP)
+		if !ipn.IP.IsLoopback() {
+			ext = append(ext, ipn.IP)
+		}
+	}
+	sort.Slice(all, func(i, j int) bool { return all[i].String() < all[j].String() })
+	sort.Slice(ext, func(i, j int) bool { return ext[i].String() < ext[j].String() })
+	return all, ext
+}
+
+// vC07IPGen draws addresses around the boundaries of the filters: loopback range edges, unspecified,
+// plain addresses, and - for the given local-interface list - each local address (4-octet, 16-octet
+// and mapped spellings) and its neighbour.
+type vC07IPGen struct {
+	v4 [][]byte
+	k4 []string
+	v6 [][]byte
+	k6 []string
+}
+
+func vC07NewIPGen(local []net.IP) *vC07IPGen {
+	g := &vC07IPGen{
+		v4: [][]byte{{127, 0, 0, 1}, {127, 255, 255, 255}, {126, 255, 255, 255}, {128, 0, 0, 0}, {0, 0, 0, 0},
+			{198, 51, 100, 1}, {198, 51, 100, 2}, {6, 6, 6, 6}},
+		k4: []string{"loopback", "loopback-hi", "below-loopback", "above-loopback", "unspecified", "plain", "plain", "plain"},
+	}
+	for i, s := range []string{"::1", "::2", "::", "2001:db8::1", "2001:db8::2", "fe80::1"} {
+		g.v6 = append(g.v6, []byte(net.ParseIP(s).To16()))
+		g.k6 = append(g.k6, []string{"loopback6", "near-loopback6", "unspecified6", "plain6", "plain6", "linklocal6"}[i])
+	}
+	isLocal := func(ip net.IP) bool {
+		for _, l := range local {
+			if l.Equal(ip) {
+				return true
+			}
+		}
+		return false
+	}
+	for _, l := range local {
+		if l.IsLoopback() {
+			continue // loopback interface addresses are covered by the loopback kinds
+		}
+		if b := l.To4(); b != nil {
+			near := append([]byte{}, b...)
+			near[3] ^= 1
+			g.v4, g.k4 = append(g.v4, append([]byte{}, b...)), append(g.k4, "local")
+			if !isLocal(net.IP(near)) {
+				g.v4, g.k4 = append(g.v4, near), append(g.k4, "near-local")
+			}
+			continue
+		}
+		b := l.To16()
+		near := append([]byte{}, b...)
+		near[15] ^= 1
+		g.v6, g.k6 = append(g.v6, append([]byte{}, b...)), append(g.k6, "local6")
+		if !isLocal(net.IP(near)) {
+			g.v6, g.k6 = append(g.v6, near), append(g.k6, "near-local6")
+		}
+	}
+	return g
+}
+
+func (g *vC07IPGen) rand(r *rand.Rand, want16 bool) ([]byte, string) {
+	// a local address is drawn with a fixed share whatever the length of the lists
+	pick4 := func() int {
+		var loc []int
+		for i, k := range g.k4 {
+			if k == "local" {
+				loc = append(loc, i)
+			}
+		}
+		if len(loc) > 0 && r.Intn(4) == 0 {
+			return loc[r.Intn(len(loc))]
+		}
+		return r.Intn(len(g.v4))
+	}
+	pick6 := func() int {
+		var loc []int
+		for i, k := range g.k6 {
+			if k == "local6" {
+				loc = append(loc, i)
+			}
+		}
+		if len(loc) > 0 && r.Intn(4) == 0 {
+			return loc[r.Intn(len(loc))]
+		}
+		return r.Intn(len(g.v6))
+	}
 	if !want16 {
 		switch r.Intn(12) {
 		case 0:
@@ -66,55 +163,41 @@ func vC07RandIP(r *rand.Rand, want16 bool) ([]byte, string) {
 		case 1:
 			return nil, "empty"
 		case 2:
-			i := r.Intn(len(v4))
-			b := net.IP(v4[i]).To16()
-			return []byte(b), "mapped-" + kinds4[i]
+			i := pick4()
+			return []byte(net.IP(g.v4[i]).To16()), "mapped-" + g.k4[i]
 		default:
-			i := r.Intn(len(v4))
-			return append([]byte{}, v4[i]...), kinds4[i]
+			i := pick4()
+			return append([]byte{}, g.v4[i]...), g.k4[i]
 		}
 	}
 	switch r.Intn(12) {
 	case 0:
 		return make([]byte, 15), "badlen"
 	case 1, 2, 3:
-		i := r.Intn(len(v4))
-		b := net.IP(v4[i]).To16()
-		return []byte(b), "mapped-" + kinds4[i]
+		i := pick4()
+		return []byte(net.IP(g.v4[i]).To16()), "mapped-" + g.k4[i]
 	default:
-		i := r.Intn(len(v6))
-		return []byte(net.ParseIP(v6[i]).To16()), kinds6[i]
+		i := pick6()
+		return append([]byte{}, g.v6[i]...), g.k6[i]
 	}
 }
 
-func TestVerifC07Unit(t *testing.T) {
-	p := os.Getenv("VERIF_OUT")
-	if p == "" {
-		t.Skip("VERIF_OUT not set")
+// vC07IsLocalAddr: a is one of the listed interface addresses (4-in-6 spellings identified)
+func vC07IsLocalAddr(local []net.IP, a netip.Addr) bool {
+	for _, l := range local {
+		if la, ok := netip.AddrFromSlice(l); ok && la.Unmap() == a.Unmap() {
+			return true
+		}
 	}
-	f, err := os.Create(p)
-	if err != nil {
-		t.Fatal(err)
-	}
-	defer f.Close()
-	vC07Quiet()
-	r := rand.New(rand.NewSource(int64(vC07EnvInt("VERIF_SEED", 1))*104729 + 11))
-	n := vC07EnvInt("VERIF_N", 2000)
-	emit := func(m map[string]any) {
-		b, _ := json.Marshal(m)
-		f.Write(append(b, '\n'))
-	}
+	return false
+}
 
-	// the local-interface list is a package variable filled at init; the driver pins it to a
-	// known set so that the filter is exercised independently of the machine's interfaces
-	saved := localIPaddrs
-	localIPaddrs = vC07Local
-	defer func() { localIPaddrs = saved }()
-	localCoq := vC07CoqIPList(vC07Local)
-
-	// --- usableAddr ---------------------------------------------------------------
-	for c := 0; c < n/5; c++ {
-		ip, kind := vC07RandIP(r, r.Intn(2) == 0)
+// vC07UsableCases: the real usableAddr against the model, with [local] = the content of localIPaddrs
+func vC07UsableCases(r *rand.Rand, cnt int, local []net.IP, tag string, emit func(map[string]any)) {
+	localCoq := vC07CoqIPList(local)
+	gen := vC07NewIPGen(local)
+	for c := 0; c < cnt; c++ {
+		ip, kind := gen.rand(r, r.Intn(2) == 0)
 		addr, ok := usableAddr(net.IP(ip))
 		obs := "None"
 		goFail := ""
@@ -123,21 +206,106 @@ func TestVerifC07Unit(t *testing.T) {
 			if addr.IsLoopback() || addr.Is4In6() {
 				goFail = "usableAddr returned a loopback or mapped address"
 			}
-			for _, l := range vC07Local {
-				if la, _ := netip.AddrFromSlice(l); la.Unmap() == addr {
-					goFail = "usableAddr returned a local interface address"
-				}
+			if vC07IsLocalAddr(local, addr) {
+				goFail = "usableAddr returned a local interface address: " + addr.String()
 			}
 		}
 		emit(map[string]any{
-			"k": "usable-" + kind, "coq": fmt.Sprintf("CaseUsable %s %s %s", localCoq, vC07CoqBytes(ip), obs),
+			"k": tag + "usable-" + kind, "coq": fmt.Sprintf("CaseUsable %s %s %s", localCoq, vC07CoqBytes(ip), obs),
 			"nontrivial": len(ip) == 4 || len(ip) == 16, "go_fail": goFail,
-			"desc": map[string]any{"ip": fmt.Sprint(net.IP(ip)), "len": len(ip), "usable": ok, "addr": addr.String()},
+			"desc": map[string]any{"ip": fmt.Sprint(net.IP(ip)), "len": len(ip), "usable": ok, "addr": addr.String(), "local_interface_addrs": fmt.Sprint(local)},
 		})
 	}
 
-	// --- checkGlueRR ----------------------------------------------------------------
-	for c := 0; c < n/5; c++ {
+}
+
+// vC07GlueOne: one call of the real checkGlueRR (fresh caches) compared with the model and the ground truth
+func vC07GlueOne(t *testing.T, local []net.IP, localCoq, tag string, ipv6 bool, level int, qname, qn vC07Name, hosts []vC07Name, hostSetV hostSet, extra []vC07RRSpec, emit func(map[string]any)) {
+	res := &Resolver{cfg: &config.Config{IPv6Access: ipv6}, glueV4: cache.New(256), glueV6: cache.New(256)}
+	resp := &dns.Msg{}
+	resp.Question = []dns.Question{{Name: qn.String(), Qtype: dns.TypeA, Qclass: dns.ClassINET}}
+	resp.Extra = vC07RRs(extra)
+	auth, f4, f6 := res.checkGlueRR(resp, hostSetV, level)
+	var srv []netip.Addr
+	for _, s := range auth.List {
+		ap, err := netip.ParseAddrPort(s.Addr)
+		if err != nil {
+			t.Fatalf("server addr %q: %v", s.Addr, err)
+		}
+		srv = append(srv, ap.Addr())
+	}
+	names := func(hs hostSet) ([]string, []vC07Name) {
+		var ks []string
+		for k := range hs {
+			ks = append(ks, k)
+		}
+		sort.Strings(ks)
+		var out []vC07Name
+		for _, k := range ks {
+			out = append(out, vC07Parse(k))
+		}
+		return ks, out
+	}
+	k4, n4 := names(f4)
+	k6, n6 := names(f6)
+	assoc := func(ks []string, get func(string) ([]netip.Addr, bool)) string {
+		var parts []string
+		for _, k := range ks {
+			a, _ := get(k)
+			parts = append(parts, fmt.Sprintf("(%s, %s)", vC07Parse(k).coq(), vC07CoqAddrs(a)))
+		}
+		return "[" + strings.Join(parts, ";") + "]"
+	}
+	a4 := assoc(k4, res.getIPv4Cache)
+	a6 := "[]"
+	if ipv6 {
+		a6 = assoc(k6, res.getIPv6Cache)
+	}
+	// Go-side ground truth: every accepted name lies in the zone made of qname's last `level` labels and is an NS host
+	goFail := ""
+	zone := "."
+	if level > 0 {
+		if level > len(qname) {
+			zone = "(none)"
+		} else {
+			zone = vC07Name(qname[len(qname)-level:]).String()
+		}
+	}
+	for _, k := range append(append([]string{}, k4...), k6...) {
+		if zone == "(none)" || !dns.IsSubDomain(strings.ToLower(zone), k) {
+			goFail = fmt.Sprintf("glue for %s accepted outside %s", k, zone)
+		}
+		if _, ok := hostSetV[k]; !ok {
+			goFail = fmt.Sprintf("glue for %s accepted but it is not an NS host", k)
+		}
+	}
+	for _, a := range srv {
+		if a.IsLoopback() {
+			goFail = "loopback glue address used"
+		}
+		if vC07IsLocalAddr(local, a) {
+			goFail = "local interface glue address used: " + a.String()
+		}
+	}
+	kind := "glue-none"
+	if len(srv) > 0 {
+		kind = "glue-some"
+	}
+	emit(map[string]any{
+		"k": tag + kind,
+		"coq": fmt.Sprintf("CaseGlue %v %s %d %s %s %s %s %s %s %s %s", ipv6, localCoq, level, qn.coq(), vC07CoqNames(hosts), vC07CoqRRs(extra),
+			vC07CoqAddrs(srv), vC07CoqNames(n4), vC07CoqNames(n6), a4, a6),
+		"nontrivial": len(extra) > 0, "go_fail": goFail,
+		"desc": map[string]any{"qname": qn.String(), "level": level, "ipv6": ipv6, "hosts": fmt.Sprint(hosts), "extra": vC07DescRRs(extra),
+			"servers": fmt.Sprint(srv), "found4": k4, "found6": k6, "local_interface_addrs": fmt.Sprint(local)},
+	})
+}
+
+// vC07GlueCases: the real Resolver.checkGlueRR (fresh glue caches) against the model
+func vC07GlueCases(t *testing.T, r *rand.Rand, cnt int, local []net.IP, tag string, emit func(map[string]any)) {
+	localCoq := vC07CoqIPList(local)
+	gen := vC07NewIPGen(local)
+	for c := 0; c < cnt; c++ {
 		qname := vC07RandQName(r)
 		level := r.Intn(len(qname) + 2)
 		if r.Intn(3) != 0 && len(qname) > 0 {
@@ -176,98 +344,177 @@ func TestVerifC07Unit(t *testing.T) {
 				s.rrtype = dns.TypeTXT
 			case 1, 2, 3:
 				s.rrtype = dns.TypeAAAA
-				s.ip, _ = vC07RandIP(r, true)
+				s.ip, _ = gen.rand(r, true)
 			default:
 				s.rrtype = dns.TypeA
-				s.ip, _ = vC07RandIP(r, false)
+				s.ip, _ = gen.rand(r, false)
 			}
 			extra = append(extra, s)
 		}
-		res := &Resolver{cfg: &config.Config{IPv6Access: ipv6}, glueV4: cache.New(256), glueV6: cache.New(256)}
-		resp := &dns.Msg{}
 		qn := qname
 		if r.Intn(3) == 0 {
 			qn = vC07CaseMix(r, qname)
 		}
-		resp.Question = []dns.Question{{Name: qn.String(), Qtype: dns.TypeA, Qclass: dns.ClassINET}}
-		resp.Extra = vC07RRs(extra)
-		auth, f4, f6 := res.checkGlueRR(resp, hostSetV, level)
-		var srv []netip.Addr
-		for _, s := range auth.List {
-			ap, err := netip.ParseAddrPort(s.Addr)
-			if err != nil {
-				t.Fatalf("server addr %q: %v", s.Addr, err)
-			}
-			srv = append(srv, ap.Addr())
-		}
-		names := func(hs hostSet) ([]string, []vC07Name) {
-			var ks []string
-			for k := range hs {
-				ks = append(ks, k)
-			}
-			sort.Strings(ks)
-			var out []vC07Name
-			for _, k := range ks {
-				out = append(out, vC07Parse(k))
-			}
-			return ks, out
-		}
-		k4, n4 := names(f4)
-		k6, n6 := names(f6)
-		assoc := func(ks []string, get func(string) ([]netip.Addr, bool)) string {
-			var parts []string
-			for _, k := range ks {
-				a, _ := get(k)
-				parts = append(parts, fmt.Sprintf("(%s, %s)", vC07Parse(k).coq(), vC07CoqAddrs(a)))
-			}
-			return "[" + strings.Join(parts, ";") + "]"
-		}
-		a4 := assoc(k4, res.getIPv4Cache)
-		a6 := "[]"
-		if ipv6 {
-			a6 = assoc(k6, res.getIPv6Cache)
-		}
-		// Go-side ground truth: every accepted name lies in the zone made of qname's last `level` labels and is an NS host
-		goFail := ""
-		zone := "."
-		if level > 0 {
-			if level > len(qname) {
-				zone = "(none)"
-			} else {
-				zone = vC07Name(qname[len(qname)-level:]).String()
-			}
-		}
-		for _, k := range append(append([]string{}, k4...), k6...) {
-			if zone == "(none)" || !dns.IsSubDomain(strings.ToLower(zone), k) {
-				goFail = fmt.Sprintf("glue for %s accepted outside %s", k, zone)
-			}
-			if _, ok := hostSetV[k]; !ok {
-				goFail = fmt.Sprintf("glue for %s accepted but it is not an NS host", k)
-			}
-		}
-		for _, a := range srv {
-			if a.IsLoopback() {
-				goFail = "loopback glue address used"
-			}
-			for _, l := range vC07Local {
-				if la, _ := netip.AddrFromSlice(l); la.Unmap() == a {
-					goFail = "local interface glue address used"
-				}
-			}
-		}
-		kind := "glue-none"
-		if len(srv) > 0 {
-			kind = "glue-some"
-		}
-		emit(map[string]any{
-			"k": kind,
-			"coq": fmt.Sprintf("CaseGlue %v %s %d %s %s %s %s %s %s %s %s", ipv6, localCoq, level, qn.coq(), vC07CoqNames(hosts), vC07CoqRRs(extra),
-				vC07CoqAddrs(srv), vC07CoqNames(n4), vC07CoqNames(n6), a4, a6),
-			"nontrivial": len(extra) > 0, "go_fail": goFail,
-			"desc": map[string]any{"qname": qn.String(), "level": level, "ipv6": ipv6, "hosts": fmt.Sprint(hosts), "extra": vC07DescRRs(extra),
-				"servers": fmt.Sprint(srv), "found4": k4, "found6": k6},
-		})
+		vC07GlueOne(t, local, localCoq, tag, ipv6, level, qname, qn, hosts, hostSetV, extra, emit)
 	}
+}
+
+// vC07InfoOne: the real extractDelegationInfo + validReferral on one authority section
+func vC07InfoOne(res *Resolver, kindBase string, authZone, qname vC07Name, q dns.Question, ns []vC07RRSpec, nontrivial bool, emit func(map[string]any)) {
+	resp := &dns.Msg{}
+	resp.Question = []dns.Question{q}
+	resp.Ns = vC07RRs(ns)
+	info := res.extractDelegationInfo(resp)
+	valid := validReferral(info, authZone.String(), q)
+	oCoq, cl, ttl := "None", uint16(0), uint32(0)
+	oDesc := "-"
+	if info.nsRecord != nil {
+		oCoq = "(Some " + vC07Parse(info.nsRecord.Header().Name).coq() + ")"
+		cl = info.nsRecord.Header().Class
+		ttl = info.nsTTL
+		oDesc = info.nsRecord.Header().Name
+	}
+	var hk []string
+	for k := range info.hosts {
+		hk = append(hk, k)
+	}
+	sort.Strings(hk)
+	var hn []vC07Name
+	for _, k := range hk {
+		hn = append(hn, vC07Parse(k))
+	}
+	// Go-side ground truth for an accepted referral
+	goFail := ""
+	if valid {
+		var first *dns.NS
+		for _, rr := range resp.Ns {
+			nsr, isNS := rr.(*dns.NS)
+			if !isNS {
+				continue
+			}
+			if first == nil {
+				first = nsr
+				continue
+			}
+			if !strings.EqualFold(nsr.Hdr.Name, first.Hdr.Name) || nsr.Hdr.Class != first.Hdr.Class {
+				goFail = "accepted a referral whose NS records do not form one set"
+			}
+		}
+		if first == nil {
+			goFail = "accepted a referral without NS"
+		} else {
+			o, a, qq := strings.ToLower(first.Hdr.Name), strings.ToLower(authZone.String()), strings.ToLower(q.Name)
+			if first.Hdr.Class != q.Qclass {
+				goFail = "accepted a referral of another class"
+			}
+			if !dns.IsSubDomain(a, o) || o == a {
+				goFail = fmt.Sprintf("accepted referral %s not strictly below %s", o, a)
+			}
+			if !dns.IsSubDomain(o, qq) {
+				goFail = fmt.Sprintf("accepted referral %s off the path to %s", o, qq)
+			}
+		}
+	}
+	kind := kindBase
+	if valid {
+		kind += "-valid"
+	}
+	emit(map[string]any{
+		"k": kind,
+		"coq": fmt.Sprintf("CaseInfo %s %s (mk_q %s %d %d) %s %d %d %s %v %v %v", vC07CoqRRs(ns), authZone.coq(), qname.coq(), q.Qtype, q.Qclass,
+			oCoq, cl, ttl, vC07CoqNames(hn), info.hasSOA, info.incoherent, valid),
+		"nontrivial": nontrivial, "go_fail": goFail,
+		"desc": map[string]any{"ns": vC07DescRRs(ns), "auth_zone": authZone.String(), "q": q.Name, "qclass": q.Qclass,
+			"owner": oDesc, "ttl": ttl, "hosts": hk, "soa": info.hasSOA, "incoherent": info.incoherent, "valid": valid},
+	})
+}
+
+// vC07ProgOne: the real progressingReferral
+func vC07ProgOne(kind string, referral, authZone, qname vC07Name, emit func(map[string]any)) {
+	obs := progressingReferral(referral.String(), authZone.String(), qname.String())
+	goFail := ""
+	if obs {
+		o, a, qq := strings.ToLower(referral.String()), strings.ToLower(authZone.String()), strings.ToLower(qname.String())
+		if !dns.IsSubDomain(a, o) || o == a || !dns.IsSubDomain(o, qq) {
+			goFail = "progressingReferral accepted a referral that is not strictly below the zone on the path to qname"
+		}
+	}
+	emit(map[string]any{
+		"k": kind, "coq": fmt.Sprintf("CaseProg %s %s %s %v", referral.coq(), authZone.coq(), qname.coq(), obs),
+		"nontrivial": true, "go_fail": goFail,
+		"desc": map[string]any{"referral": referral.String(), "auth_zone": authZone.String(), "qname": qname.String(), "progressing": obs},
+	})
+}
+
+// vC07ZoneFilterOne: the real dnsutil.FilterRRsToZone (what Resolver.answer applies to the upstream Answer
+// section) on A records owned by [owners]
+func vC07ZoneFilterOne(kind string, zone vC07Name, owners []vC07Name, emit func(map[string]any)) {
+	var rrs []dns.RR
+	for i, o := range owners {
+		rrs = append(rrs, vC07RRSpec{owner: o, rrtype: dns.TypeA, class: dns.ClassINET, ttl: 60, ip: []byte{198, 51, 100, byte(i)}}.rr())
+	}
+	kept := dnsutil.FilterRRsToZone(rrs, zone.String())
+	var idx, keptDesc []string
+	j := 0
+	for i := range rrs {
+		if j < len(kept) && kept[j] == rrs[i] {
+			idx = append(idx, fmt.Sprint(i))
+			keptDesc = append(keptDesc, owners[i].String())
+			j++
+		}
+	}
+	goFail := ""
+	if j != len(kept) {
+		goFail = "FilterRRsToZone reordered or invented records"
+	}
+	for _, rr := range kept {
+		if !dns.IsSubDomain(strings.ToLower(zone.String()), strings.ToLower(rr.Header().Name)) {
+			goFail = "FilterRRsToZone kept " + rr.Header().Name + ", which is outside " + zone.String()
+		}
+	}
+	var od []string
+	for _, o := range owners {
+		od = append(od, o.String())
+	}
+	emit(map[string]any{
+		"k": kind, "coq": fmt.Sprintf("CaseZoneFilter %s %s [%s]", zone.coq(), vC07CoqNames(owners), strings.Join(idx, ";")),
+		"nontrivial": len(owners) > 0, "go_fail": goFail,
+		"desc": map[string]any{"zone": zone.String(), "owners": od, "kept": keptDesc},
+	})
+}
+
+func TestVerifC07Unit(t *testing.T) {
+	p := os.Getenv("VERIF_OUT")
+	if p == "" {
+		t.Skip("VERIF_OUT not set")
+	}
+	f, err := os.Create(p)
+	if err != nil {
+		t.Fatal(err)
+	}
+	defer f.Close()
+	vC07Quiet()
+	r := rand.New(rand.NewSource(int64(vC07EnvInt("VERIF_SEED", 1))*104729 + 11))
+	n := vC07EnvInt("VERIF_N", 2000)
+	emit := func(m map[string]any) {
+		b, _ := json.Marshal(m)
+		f.Write(append(b, '\n'))
+	}
+
+	// the local-interface list is a package variable filled at init from the machine's interfaces; this
+	// driver leaves it alone and tells the model which addresses the host has (enumerated independently).
+	// A pinned list is exercised by TestVerifC07UnitPin (its own driver: it names the package variable).
+	hostAll, hostExt := vC07HostAddrs()
+	if len(hostExt) == 0 {
+		emit(map[string]any{"k": "hostlocal-none", "nontrivial": false,
+			"desc": "this host has no non-loopback interface address: the local-interface filter is exercised by the pinned driver only"})
+	}
+	vC07UnitCorpus(t, hostAll, emit)
+	vC07UsableCases(r, n/5, hostAll, "", emit)
+	vC07GlueCases(t, r, n/5, hostAll, "", emit)
+	local := hostAll
+	localCoq := vC07CoqIPList(local)
+	gen := vC07NewIPGen(local)
 
 	// --- the NS-address cache across a history of referrals ------------------------------------
 	// each event is what processDelegation does on the uncached path: the real checkGlueRR, then the
@@ -320,7 +567,7 @@ func TestVerifC07Unit(t *testing.T) {
 					owner = vC07CaseMix(r, owner)
 				}
 				sp := vC07RRSpec{owner: owner, rrtype: dns.TypeA, class: dns.ClassINET, ttl: 60}
-				sp.ip, _ = vC07RandIP(r, false)
+				sp.ip, _ = gen.rand(r, false)
 				extra = append(extra, sp)
 			}
 			// what an address lookup for each host returns (missing: the lookup fails)
@@ -335,9 +582,9 @@ func TestVerifC07Unit(t *testing.T) {
 					sp := vC07RRSpec{owner: h, rrtype: dns.TypeA, class: dns.ClassINET, ttl: 60}
 					if r.Intn(4) == 0 {
 						sp.rrtype = dns.TypeAAAA
-						sp.ip, _ = vC07RandIP(r, true)
+						sp.ip, _ = gen.rand(r, true)
 					} else {
-						sp.ip, _ = vC07RandIP(r, false)
+						sp.ip, _ = gen.rand(r, false)
 					}
 					if r.Intn(5) == 0 {
 						sp.owner = append(vC07Name{"alias"}, h...) // the tail of an alias chain
@@ -432,72 +679,7 @@ func TestVerifC07Unit(t *testing.T) {
 			pos := r.Intn(len(ns) + 1)
 			ns = append(ns[:pos], append([]vC07RRSpec{s}, ns[pos:]...)...)
 		}
-		resp := &dns.Msg{}
-		resp.Question = []dns.Question{q}
-		resp.Ns = vC07RRs(ns)
-		info := res.extractDelegationInfo(resp)
-		valid := validReferral(info, authZone.String(), q)
-		oCoq, cl, ttl := "None", uint16(0), uint32(0)
-		oDesc := "-"
-		if info.nsRecord != nil {
-			oCoq = "(Some " + vC07Parse(info.nsRecord.Header().Name).coq() + ")"
-			cl = info.nsRecord.Header().Class
-			ttl = info.nsTTL
-			oDesc = info.nsRecord.Header().Name
-		}
-		var hk []string
-		for k := range info.hosts {
-			hk = append(hk, k)
-		}
-		sort.Strings(hk)
-		var hn []vC07Name
-		for _, k := range hk {
-			hn = append(hn, vC07Parse(k))
-		}
-		// Go-side ground truth for an accepted referral
-		goFail := ""
-		if valid {
-			var first *dns.NS
-			for _, rr := range resp.Ns {
-				nsr, isNS := rr.(*dns.NS)
-				if !isNS {
-					continue
-				}
-				if first == nil {
-					first = nsr
-					continue
-				}
-				if !strings.EqualFold(nsr.Hdr.Name, first.Hdr.Name) || nsr.Hdr.Class != first.Hdr.Class {
-					goFail = "accepted a referral whose NS records do not form one set"
-				}
-			}
-			if first == nil {
-				goFail = "accepted a referral without NS"
-			} else {
-				o, a, qq := strings.ToLower(first.Hdr.Name), strings.ToLower(authZone.String()), strings.ToLower(q.Name)
-				if first.Hdr.Class != q.Qclass {
-					goFail = "accepted a referral of another class"
-				}
-				if !dns.IsSubDomain(a, o) || o == a {
-					goFail = fmt.Sprintf("accepted referral %s not strictly below %s", o, a)
-				}
-				if !dns.IsSubDomain(o, qq) {
-					goFail = fmt.Sprintf("accepted referral %s off the path to %s", o, qq)
-				}
-			}
-		}
-		kind := "info-" + ak + "-" + ok
-		if valid {
-			kind += "-valid"
-		}
-		emit(map[string]any{
-			"k": kind,
-			"coq": fmt.Sprintf("CaseInfo %s %s (mk_q %s %d %d) %s %d %d %s %v %v %v", vC07CoqRRs(ns), authZone.coq(), qname.coq(), q.Qtype, q.Qclass,
-				oCoq, cl, ttl, vC07CoqNames(hn), info.hasSOA, info.incoherent, valid),
-			"nontrivial": cnt > 0, "go_fail": goFail,
-			"desc": map[string]any{"ns": vC07DescRRs(ns), "auth_zone": authZone.String(), "q": q.Name, "qclass": q.Qclass,
-				"owner": oDesc, "ttl": ttl, "hosts": hk, "soa": info.hasSOA, "incoherent": info.incoherent, "valid": valid},
-		})
+		vC07InfoOne(res, "info-"+ak+"-"+ok, authZone, qname, q, ns, cnt > 0, emit)
 	}
 
 	// --- progressingReferral -------------------------------------------------------------
@@ -518,19 +700,31 @@ func TestVerifC07Unit(t *testing.T) {
 				}
 			}
 		}
-		obs := progressingReferral(referral.String(), authZone.String(), qname.String())
-		goFail := ""
-		if obs {
-			o, a, qq := strings.ToLower(referral.String()), strings.ToLower(authZone.String()), strings.ToLower(qname.String())
-			if !dns.IsSubDomain(a, o) || o == a || !dns.IsSubDomain(o, qq) {
-				goFail = "progressingReferral accepted a referral that is not strictly below the zone on the path to qname"
+		vC07ProgOne("prog-"+ak+"-"+rk, referral, authZone, qname, emit)
+	}
+
+	// --- the zone filter of Resolver.answer ---------------------------------------------------
+	for c := 0; c < n/10; c++ {
+		qname := vC07RandQName(r)
+		zone, zk := vC07Relative(r, qname)
+		if r.Intn(3) != 0 {
+			k := 0
+			if len(qname) > 0 {
+				k = r.Intn(len(qname) + 1)
 			}
+			zone, zk = append(vC07Name{}, qname[len(qname)-k:]...), "ancestor"
 		}
-		emit(map[string]any{
-			"k": "prog-" + ak + "-" + rk, "coq": fmt.Sprintf("CaseProg %s %s %s %v", referral.coq(), authZone.coq(), qname.coq(), obs),
-			"nontrivial": true, "go_fail": goFail,
-			"desc": map[string]any{"referral": referral.String(), "auth_zone": authZone.String(), "qname": qname.String(), "progressing": obs},
-		})
+		var owners []vC07Name
+		for i, cnt := 0, 1+r.Intn(6); i < cnt; i++ {
+			var o vC07Name
+			if r.Intn(2) == 0 {
+				o, _ = vC07Relative(r, qname)
+			} else {
+				o, _ = vC07Relative(r, zone)
+			}
+			owners = append(owners, o)
+		}
+		vC07ZoneFilterOne("zonefilter-"+zk, zone, owners, emit)
 	}
 
 	// --- filterAuthorityRecords + clearAdditional --------------------------------------------
